@@ -79,3 +79,46 @@ Definition spec_ok (t : tree) (pfx : string) (env : list (string * string))
           wf (Node d) && no_empty_sections (Node d) &&
           subset_pv want got && subset_pv got want
       end.
+
+(** ** The configuration after the load (what a user reads).
+    [t]: the settings before the load (all other levels merged, deletions
+    applied); [higher]: the levels that take precedence over the environment
+    (command-line overrides, runtime modifications); [d]: the environment level
+    that was accepted by [spec_ok]; [v]: the observed view.
+    (a) no setting or section is created or lost; (b) a setting named by an
+    applied variable reads the converted value unless a higher level defines it;
+    every other setting is untouched. *)
+Fixpoint all_paths (t : tree) : list path :=
+  match t with
+  | Leaf _ => []
+  | Node kids =>
+      (fix go (l : list (string * tree)) : list path :=
+         match l with
+         | [] => []
+         | (k, c) :: l' => [k] :: map (cons k) (all_paths c) ++ go l'
+         end) kids
+  end.
+
+Definition path_in (p : path) (l : list path) : bool := existsb (path_eqb p) l.
+Definition subset_paths (a b : list path) : bool := forallb (fun p => path_in p b) a.
+
+Definition defined_in (p : path) (t : tree) : bool :=
+  match lookup p t with Some _ => true | None => false end.
+
+Definition opt_value_eqb (a b : option value) : bool :=
+  match a, b with
+  | Some x, Some y => value_eqb x y
+  | None, None => true
+  | _, _ => false
+  end.
+
+Definition spec_view (t : tree) (higher : list tree) (d : dict) (v : tree) : bool :=
+  subset_paths (all_paths v) (all_paths t) && subset_paths (all_paths t) (all_paths v) &&
+  forallb (fun px =>
+             let p := fst px in
+             let want := match leaf_at p (Node d) with
+                         | Some w => if existsb (defined_in p) higher then snd px else w
+                         | None => snd px
+                         end in
+             opt_value_eqb (leaf_at p v) (Some want))
+          (leaf_paths t).
